@@ -294,7 +294,7 @@ def run_one(payload):
                       stalls={int(k_): v for k_, v in c.get('stalls', {}).items()},
                       clock_jumps=[tuple(x) for x in c.get('clock_jumps', [])],
                       short_write='short_write' in c['faults'], kill_plan=c.get('kill_plan'),
-                      repo_src=REPO_SRC, step_cap=payload.get('step_cap', 300000))
+                      repo_src=REPO_SRC, step_cap=payload.get('step_cap', 300000), capture_copies=True)
         k = K.Kernel(cs, simcfg, sandbox, run_seed=seed)
         k.rng_objects = _find_rng_objects()
         if 'stale_lock' in c:
@@ -371,6 +371,13 @@ def _find_rng_objects():
 # --------------------------------------------------------------------------------------
 # oracles
 # --------------------------------------------------------------------------------------
+STAMP_RE = re.compile(r'^ ?(Simulation Date|Simulation Time|Calculation Time): .*$', re.M)
+
+
+def _canon(text):
+    return STAMP_RE.sub('', text)
+
+
 ROW_RE = re.compile(r'^((?:[^,()\s][^,()]*, )*)\(((?:[^:;()]+:[^:;()]+;)+)\)$')
 
 
@@ -499,6 +506,10 @@ def analyse(rec, c, k, out_path, inp_path, payload):
             lock_events[t].append((kind, n['ok'], n['code']))
         elif kind == 'buffer_lost':
             lost_buffers[t] += n['nbytes']
+        elif kind == 'copyfile' and t is not None and (n['src'].endswith('.out') or n['dst'].endswith('_result.txt')):
+            it = last_iter.get(t)
+            if it is not None:
+                it['report'] = n['data']
         elif kind == 'write' and n['path'].startswith('tmp/') and t is not None:
             sampled[t] += n['data']
             # one simulated iteration = one private input file (a pool task may run several iterations, e.g. batching)
@@ -514,9 +525,11 @@ def analyse(rec, c, k, out_path, inp_path, payload):
     broken = any(pl_.broken for pl_ in k.pools)
     rec['pool_broken'] = broken
     rec['pools'] = len(k.pools)
-    if pool is not None and n_sub < c['iterations'] and (strict or not broken):
-        # (more tasks than ITERATIONS is legal - e.g. a retry pass; fewer means requested iterations were never run)
-        V('C13', 'iteration_count', 'fewer_than_requested', f"{n_sub} tasks submitted for ITERATIONS={c['iterations']}")
+    n_obs = max(n_sub, len(iters))      # a pool task may carry several iterations (chunking), so count iterations seen as well
+    if pool is not None and n_obs < c['iterations'] and (strict or not broken):
+        # (more than ITERATIONS is legal - e.g. a retry pass; fewer means requested iterations were never run)
+        V('C13', 'iteration_count', 'fewer_than_requested',
+          f"{n_sub} pool tasks / {len(iters)} iterations observed for ITERATIONS={c['iterations']}")
     # an iteration is "successfully simulated" when the simulator call made for it returned normally
     ok_iters = [it for it in iters if it['sim'] is True]
     successes = [it['task'] for it in ok_iters]          # one entry per successful simulator call
@@ -684,6 +697,19 @@ def analyse(rec, c, k, out_path, inp_path, payload):
         finally:
             tempfile.tempdir = old_tmp
         replayed += 1
+        # C20 "runs embedded in the Monte-Carlo driver produce the same case report": the report the iteration copied from
+        # its client vs the report of base input + recorded sampled values run through the client on its own
+        rk = ';'.join(f'{n}:{v}' for n, v in pairs) + ';'
+        emb = next((it.get('report') for it in ok_iters if it.get('key') == rk and it.get('report') is not None), None)
+        if emb is not None:
+            rec['embedded_reports_compared'] = rec.get('embedded_reports_compared', 0) + 1
+            a_ = _canon(emb.decode('utf-8', 'replace'))
+            b_ = _canon(report)
+            if a_ != b_:
+                i_ = next((j for j in range(min(len(a_), len(b_))) if a_[j] != b_[j]), min(len(a_), len(b_)))
+                V('C20', 'entrypoint_report_diff', 'mc_embedded',
+                  f'line {lineno}: the report produced inside the Monte-Carlo iteration differs from the client run of the same input at '
+                  f'char {i_}: {a_[max(0, i_ - 40):i_ + 40]!r} vs {b_[max(0, i_ - 40):i_ + 40]!r}')
         for o, tok in zip(c['outputs'], toks):
             hits = extract_output(report, o)
             if len(hits) != 1:
